@@ -132,9 +132,31 @@ func run(c *harness.Ctx, i int) {
 		}
 		fop = ops[(slot-1)%len(ops)]
 		fk = int64((slot-1)/len(ops) + 1)
+	case slot >= 45:
+		// no store fault, but the operation is cancelled at a progress event / store call (the last one, the one before
+		// it, a random one): a cancelled operation may still report success only if everything is in the store
+		fop = "cancel"
+		nc := int64(len(sc.idx.Chunks))
+		switch slot {
+		case 45:
+			fk = nc
+		case 46:
+			fk = nc - 1
+		default:
+			fk = 1 + c.Rng.Int63n(nc+1)
+		}
 	default:
 		fop = "subset"
 		subset = uint64(c.Rng.Int63()) | 1
+	}
+	ctx, cancel := context.WithCancel(context.Background())
+	defer cancel()
+	var cancelled int64
+	cancelAt := func(k int64) {
+		if fop == "cancel" && k == fk {
+			atomic.StoreInt64(&cancelled, 1)
+			cancel()
+		}
 	}
 	c.Info("scenario=%d op=%s chunks=%d sizes=%s n=%d dup=%v ymode=%d fault=%s@%d", s, sc.op, len(sc.idx.Chunks), sc.sz, sc.n, sc.dup, sc.ymode, fop, fk)
 	c.LogInfo()
@@ -156,6 +178,9 @@ func run(c *harness.Ctx, i int) {
 		return nil
 	}
 	dst.Gate = func(op string, id desync.ChunkID, n int64) {
+		if sc.op == "chunkstream" && op == "store" {
+			cancelAt(n)
+		}
 		if n%5 == 0 {
 			time.Sleep(time.Duration(n%4) * 20 * time.Microsecond)
 		}
@@ -200,19 +225,19 @@ func run(c *harness.Ctx, i int) {
 	switch sc.op {
 	case "chop", "chop-stale":
 		dsu.WriteFile(file, fileData)
-		err = desync.ChopFile(context.Background(), file, sc.idx.Chunks, dst, sc.n, &dsu.CountPB{})
+		err = desync.ChopFile(ctx, file, sc.idx.Chunks, dst, sc.n, &dsu.CountPB{OnAdd: cancelAt})
 	case "copy":
 		var ids []desync.ChunkID
 		for _, ch := range sc.idx.Chunks {
 			ids = append(ids, ch.ID)
 		}
-		err = desync.Copy(context.Background(), ids, src, dst, sc.n, &dsu.CountPB{})
+		err = desync.Copy(ctx, ids, src, dst, sc.n, &dsu.CountPB{OnAdd: cancelAt})
 	case "chunkstream":
 		var ch desync.Chunker
 		ch, err = desync.NewChunker(bytes.NewReader(sc.blob), sc.sz.Min, sc.sz.Avg, sc.sz.Max)
 		dsu.Must(err)
 		var idx desync.Index
-		idx, err = desync.ChunkStream(context.Background(), ch, dst, sc.n)
+		idx, err = desync.ChunkStream(ctx, ch, dst, sc.n)
 		if err == nil {
 			produced = &idx
 		}
@@ -257,7 +282,7 @@ func run(c *harness.Ctx, i int) {
 				return
 			}
 		}
-	} else if nd == 0 && sc.staleK < 0 {
+	} else if nd == 0 && sc.staleK < 0 && atomic.LoadInt64(&cancelled) == 0 {
 		c.Violation("failed-without-fault:"+sc.op, "%s failed although no fault was injected: %v", sc.op, err)
 		return
 	}
@@ -265,7 +290,10 @@ func run(c *harness.Ctx, i int) {
 	if fk > 0 {
 		kb = fmt.Sprint((fk + 3) / 4)
 	}
-	if nd > 0 || (slot == 0 && sc.dup && sc.n >= 2) || sc.staleK >= 0 {
+	if atomic.LoadInt64(&cancelled) == 1 {
+		c.Count("cancellations_delivered", 1)
+	}
+	if nd > 0 || (slot == 0 && sc.dup && sc.n >= 2) || sc.staleK >= 0 || atomic.LoadInt64(&cancelled) == 1 {
 		c.NonTrivial("%s|n%d|%s|k%s|dup%v|y%d", sc.op, sc.n, fop, kb, sc.dup, sc.ymode)
 	}
 	c.Sample(map[string]interface{}{"op": sc.op, "chunks": len(sc.idx.Chunks), "n": sc.n, "dup": sc.dup, "fault": fmt.Sprintf("%s@%d", fop, fk), "delivered": nd, "result_error": fmt.Sprint(err),
